@@ -211,3 +211,53 @@ Proof.
   intros Nr Ns Pr Ps. rewrite !merge_regions, !merge_styles.
   rewrite (first_with_perm g_id id pr pr' Nr Pr), (first_with_perm s_id id ps ps' Ns Ps). auto.
 Qed.
+
+(* ---- Merge stated on B itself: [pr]/[ps] are B's maps in the runtime's iteration order ---- *)
+Definition keyed {V} (key : V -> N) (m : list (N * V)) : Prop :=
+  NoDup (map fst m) /\ Forall (fun kv => key (snd kv) = fst kv) m.
+
+Lemma first_with_values {V} (key : V -> N) id (m : list (N * V)) :
+  keyed key m -> first_with key id (map snd m) = alookup id m.
+Proof.
+  intros [Hnd Hk]. induction m as [|[k v] r IH]; [reflexivity|].
+  cbn [map snd] in *. inversion Hnd as [|? ? Hnk Hr]; subst. inversion Hk as [|? ? Hkv Hkr]; subst. cbn [snd fst] in Hkv.
+  unfold first_with in *. cbn [find alookup]. rewrite Hkv. rewrite (N.eqb_sym k id).
+  destruct (N.eqb id k); [reflexivity | apply IH; assumption].
+Qed.
+
+Lemma keyed_values_nodup {V} (key : V -> N) (m : list (N * V)) : keyed key m -> NoDup (map key (map snd m)).
+Proof.
+  intros [Hnd Hk]. rewrite map_map. replace (map (fun kv => key (snd kv)) m) with (map fst m); [exact Hnd|].
+  apply map_ext_in. intros kv Hin. rewrite Forall_forall in Hk. symmetry. apply Hk. exact Hin.
+Qed.
+
+Theorem merge_union a b pr ps :
+  keyed g_id (map_or_empty (regions b)) -> keyed s_id (map_or_empty (styles b)) ->
+  Permutation (map snd (map_or_empty (regions b))) pr -> Permutation (map snd (map_or_empty (styles b))) ps ->
+  forall id,
+    lookup_region (merge a b pr ps) id = match lookup_region a id with Some r => Some r | None => lookup_region b id end /\
+    lookup_style (merge a b pr ps) id = match lookup_style a id with Some s => Some s | None => lookup_style b id end.
+Proof.
+  intros Kr Ks Pr Ps id. rewrite merge_regions, merge_styles.
+  rewrite <- (first_with_perm g_id id _ pr (keyed_values_nodup g_id _ Kr) Pr).
+  rewrite <- (first_with_perm s_id id _ ps (keyed_values_nodup s_id _ Ks) Ps).
+  rewrite (first_with_values g_id id _ Kr), (first_with_values s_id id _ Ks). split; reflexivity.
+Qed.
+
+(* a nil receiver map becomes a (possibly empty) map: Merge allocates it *)
+Lemma merge_maps_allocated a b pr ps : regions (merge a b pr ps) <> None /\ styles (merge a b pr ps) <> None.
+Proof. split; discriminate. Qed.
+
+(* non-vacuity: nil receiver maps, an identifier defined on both sides, equal starts across A and B *)
+Definition ex_merge_a : subs :=
+  mkSubs [mkItem 1 5 6 [] None (Some 7%N) false; mkItem 2 9 10 [] None None false] None
+         (Some [(7%N, mkStyle 7 None true)]).
+Definition ex_merge_b : subs :=
+  mkSubs [mkItem 3 5 7 [] (Some 4%N) (Some 7%N) false; mkItem 4 1 2 [] None None false]
+         (Some [(4%N, mkRegion 4 None false)])
+         (Some [(8%N, mkStyle 8 (Some 7%N) false); (7%N, mkStyle 7 None false)]).
+Example ex_merge :
+  let m := merge ex_merge_a ex_merge_b [mkRegion 4 None false] [mkStyle 7 None false; mkStyle 8 (Some 7%N) false] in
+  map uid (items m) = [4; 1; 3; 2]%N /\ lookup_style m 7 = Some (mkStyle 7 None true) /\
+  lookup_style m 8 = Some (mkStyle 8 (Some 7%N) false) /\ lookup_region m 4 = Some (mkRegion 4 None false).
+Proof. repeat split; reflexivity. Qed.
